@@ -34,6 +34,9 @@ class Facts:
         self.structs = d["structs"]
         self.impls = d["impls"]
         self.traits = d["traits"]
+        # a baseline function that was merely renamed keeps its identity (renames.py); identity on the pinned tree
+        import renames
+        self.renamed = renames.apply(self.fns, self.hir)
         # functions that do not exist at the pinned commit are transparent (see inline.py); identity on the pinned tree
         import inline
         self.inlined, self.transparent = inline.apply(self.fns)
@@ -818,6 +821,35 @@ class Body:
                 if st["k"] == "assign" and st["rv"]["k"] in ("ref", "addr_of", "rawptr") and st["rv"].get("bk", "mut") != "shared" and not st["rv"]["pl"].get("p"):
                     escaped.add(st["rv"]["pl"]["l"])
         avoid = set(avoid)
+        # only the locals that can influence a branch are tracked (backward slice of the switch operands through
+        # copies, operators, aggregates, projections and `?`): keeps the number of distinct environments small
+        relevant = set()
+        work_l = []
+        for blk in self.blocks:
+            if blk["t"]["k"] == "switch":
+                pl = op_place(blk["t"]["op"])
+                if pl is not None:
+                    work_l.append(pl["l"])
+        dd = self.defs()
+        while work_l:
+            l = work_l.pop()
+            if l in relevant:
+                continue
+            relevant.add(l)
+            for d in dd.get(l, []):
+                if d[0] == "stmt" and d[3]["k"] == "assign":
+                    rv = d[3]["rv"]
+                    ops = list(rv_operands(rv)) + list(rv.get("fields", []) if rv["k"] == "agg" else [])
+                    for o in ops:
+                        pl = op_place(o) if isinstance(o, dict) else None
+                        if pl is not None:
+                            work_l.append(pl["l"])
+                    if rv["k"] in ("discr", "ref") and "pl" in rv:
+                        work_l.append(rv["pl"]["l"])
+                elif d[0] == "call" and call_is(d[2], r"Try>::branch$") and d[2]["args"]:
+                    pl = op_place(d[2]["args"][0])
+                    if pl is not None:
+                        work_l.append(pl["l"])
 
         def val(op, env):
             c = op_const(op)
@@ -878,12 +910,17 @@ class Body:
                 if isinstance(v, tuple) and v[0] == "agg":
                     return v[1]
                 return None
-            if k == "agg" and rv.get("ak") == "adt" and "variant_idx" in rv and rv.get("adt", "").split("::")[-1] in ("Result", "Option", "ControlFlow"):
-                return ("agg", rv["variant_idx"], tuple(val(f, env) for f in rv["fields"]))
+            if k == "agg" and rv.get("ak") == "adt" and "variant_idx" in rv:
+                # Result / Option / ControlFlow and the crate's own enums (a route or a strategy chosen in one place
+                # and matched on in another); `discriminant(x)` of such a value is its declared discriminant
+                return ("agg", self._discr_of(rv), tuple(val(f, env) for f in rv["fields"]))
+            if k == "agg" and rv.get("ak") == "tuple":
+                return ("agg", 0, tuple(val(f, env) for f in rv["fields"]))
             return None
 
         seen = set()
         reach, edges = set(), set()
+        relevant |= set(assume_locals)
         work = [(start, tuple(sorted((l, v) for l, v in assume_locals.items() if l not in escaped)))]
         while work:
             if len(seen) > max_states:
@@ -904,7 +941,7 @@ class Body:
                     if not (st["lhs"].get("p") and "*" in st["lhs"]["p"]):
                         env.pop(l, None)
                     continue
-                v = ev(st["rv"], env)
+                v = ev(st["rv"], env) if l in relevant else None
                 if v is None:
                     env.pop(l, None)
                 else:
@@ -942,6 +979,15 @@ class Body:
                 edges.add((bb, y))
                 work.append((y, e2))
         return reach, edges
+
+    def _discr_of(self, rv):
+        """declared discriminant of the variant built by an aggregate rvalue (variant index when not an enum of the crate)"""
+        for e in self.F.enums:
+            if e["path"] == rv.get("adt"):
+                for v in e["variants"]:
+                    if v["name"] == rv.get("variant"):
+                        return v["discr"]
+        return rv["variant_idx"]
 
     def local_named(self, name):
         r = [i for i, l in enumerate(self.locals) if l.get("name") == name]
